@@ -172,6 +172,17 @@ func (c *Ctx) norm(t *Term) *Term {
 
 // LearnEq records t == k (k constant) for later term construction, with simple linear inversion.
 func (c *Ctx) LearnEq(t, k *Term) {
+	// coordinates of abstract group elements stay opaque: substituting a constant for a slice of
+	// a GMUL/GADD application would break the normal form the group laws are expressed in (the
+	// equality itself stays in the path condition)
+	if g := t; g.op == OpExtract || g.op == OpUF {
+		if g.op == OpExtract {
+			g = g.args[0]
+		}
+		if g.op == OpUF && (strings.HasPrefix(g.name, "GMUL") || strings.HasPrefix(g.name, "GADD")) {
+			return
+		}
+	}
 	for depth := 0; depth < 8; depth++ {
 		if t.op == OpConst || !k.IsConst() || t.w != k.w {
 			return
@@ -713,6 +724,25 @@ func (c *Ctx) Bin(op Op, a, b *Term) *Term {
 				return a
 			}
 			return c.BV(0, a.w)
+		}
+		if op == OpBvXor {
+			// (x ^ y) ^ y = x (CBC decryption of a CBC encryption)
+			if a.op == OpBvXor {
+				if a.args[0] == b {
+					return a.args[1]
+				}
+				if a.args[1] == b {
+					return a.args[0]
+				}
+			}
+			if b.op == OpBvXor {
+				if b.args[0] == a {
+					return b.args[1]
+				}
+				if b.args[1] == a {
+					return b.args[0]
+				}
+			}
 		}
 		// canonical form of a wide xor: concatenation of byte-wise xors (byte-oriented crypto glue
 		// builds the same value either way; this makes the two syntactically equal)
